@@ -163,6 +163,7 @@ func checkC15(c *Check) {
 	proveFn = func(fn *ssa.Function, line int, kind string, via string, depth int) {
 		var instrs []ssa.Instruction
 		var calls []*ssa.Function
+		var stdInlined []string
 		for _, b := range fn.Blocks {
 			for _, in := range b.Instrs {
 				if !in.Pos().IsValid() && line >= 0 {
@@ -187,8 +188,10 @@ func checkC15(c *Check) {
 						instrs = append(instrs, in)
 					}
 				case *ssa.Call:
-					if _, callee := calleeOf(x); callee != nil && inModule(callee) {
+					if nm, callee := calleeOf(x); callee != nil && inModule(callee) {
 						calls = append(calls, callee)
+					} else if stdPrefixHelpers[nm] {
+						stdInlined = append(stdInlined, nm)
 					}
 				}
 			}
@@ -197,6 +200,15 @@ func checkC15(c *Check) {
 			// the check belongs to an inlined callee
 			for _, callee := range calls {
 				proveFn(callee, -1, kind, via+"→"+callee.Name(), depth+1)
+			}
+			if len(calls) == 0 && line >= 0 && len(stdInlined) > 0 {
+				// the check sits in a standard-library string helper the compiler inlined on this line; these slice
+				// behind their own length test (s[len(prefix):] after HasPrefix, s[:i] / s[i+len(sep):] after Index ≥ 0)
+				for _, nm := range stdInlined {
+					c.Assume = append(c.Assume, nm+" slices only behind its own length test (standard library)")
+				}
+				c.OK("1/panic-freedom", fmt.Sprintf("%s:%s@line%d", shortName(fn), kind, line), "-", "bounds check inside an inlined standard-library string helper ("+strings.Join(stdInlined, ", ")+")")
+				return
 			}
 			if len(calls) == 0 && line >= 0 {
 				c.Undecided("1/panic-freedom", fmt.Sprintf("%s:%s@line%d", shortName(fn), kind, line), "-", "compiler reports an unproven bounds check but no matching instruction was found")
@@ -755,3 +767,10 @@ func variantLoop(f *ssa.Function, h *ssa.BasicBlock) (string, bool) {
 }
 
 var _ = ast.Inspect
+
+// stdPrefixHelpers: standard-library string helpers small enough to be inlined whose slicing is guarded by their
+// own length test.
+var stdPrefixHelpers = map[string]bool{
+	"strings.CutPrefix": true, "strings.CutSuffix": true, "strings.TrimPrefix": true, "strings.TrimSuffix": true, "strings.Cut": true,
+	"bytes.CutPrefix": true, "bytes.CutSuffix": true, "bytes.TrimPrefix": true, "bytes.TrimSuffix": true, "bytes.Cut": true,
+}
